@@ -699,7 +699,7 @@ static const int MAXSIDE[4] = {2, 0, 2, 0};
 // a curve may coincide only if the corresponding anchors of the table coincide too (otherwise the input names two
 // different table saturations for one scaled saturation and the statement is silent about which one wins).
 // The displacing-critical (middle) anchors only matter with three-point saturation scaling or a KRxR keyword.
-static bool validEndPts(const EndPts& e, const EndPts& T, bool needMiddle) {
+static bool validEndPts(const EndPts& e, const EndPts& T, bool needMiddle, bool allowKrwCriticalBeyondMax = false) {
     const double m = 0.02;
     const double* v = e.v;
     if (!(v[E_SWL] >= 0 && v[E_SWL] <= v[E_SWCR] && v[E_SWU] <= 1.0 && v[E_SWL] + m <= v[E_SWU])) return false;
@@ -711,6 +711,10 @@ static bool validEndPts(const EndPts& e, const EndPts& T, bool needMiddle) {
         for (int j = 0; j < 2 && needMiddle; ++j) {
             double d = A.a[i][j + 1] - A.a[i][j];
             bool coincideT = B.a[i][j + 1] == B.a[i][j];
+            // krw only: the critical saturation of the displacing oil, 1 - SOWCR - SGL, may lie clearly ABOVE the maximum water
+            // saturation SWU of the cell (legal for per-cell arrays; the curve then reaches its maximum at SWU and the middle anchor
+            // is never met)
+            if (i == 0 && j == 1 && allowKrwCriticalBeyondMax && d <= -m) continue;
             if (!(d >= m || (d == 0.0 && coincideT))) return false;
         }
     }
@@ -765,7 +769,7 @@ static std::vector<EndPts> genEndPoints(Rng& rng, Model& m, bool identity, const
             if (explicitEntry[E_KRGR]) v[E_KRGR] = v[E_KRG] * rng.uniform(0.2, 1.0);
             if (explicitEntry[E_KRORG]) v[E_KRORG] = v[E_KRO] * rng.uniform(0.2, 1.0);
             for (int k = 0; k < E_N; ++k) v[k] = roundTrip(v[k]);
-            if (validEndPts(e, T, needMiddle)) break;
+            if (validEndPts(e, T, needMiddle, m.threepoint && !m.present[E_KRWR])) break;
             if (attempt == 58) { e = T; for (int k = 0; k < E_N; ++k) explicitEntry[k] = m.present[k]; break; }
         }
         // where the displacing-critical anchor coincides with the anchor of the maximum, KRxR and KRx name the same point
@@ -800,7 +804,11 @@ static void checkEndPointMapping(Ctx& cx, const Cell& cell, const Model& m, cons
         expectMap(cx, std::string("eps-endpoint-map:") + curve, w.str(), got, expect);
     };
     M("krw", "SWCR", OWEps::scaledToUnscaledSatKrw(owd, e[E_SWCR]), t.Swcr);
-    M("krw", "SWU", OWEps::scaledToUnscaledSatKrw(owd, e[E_SWU]), t.Swu);
+    // When the critical saturation of the displacing oil lies beyond SWU (three-point scaling) the map jumps to the table maximum AT
+    // SWU: evaluated a hair above it, so that the last bit of SWU does not decide on which side of the jump the probe lands.
+    const bool krwBeyond = m.threepoint && 1.0 - e[E_SOWCR] - e[E_SGL] > e[E_SWU];
+    const double swuProbe = krwBeyond ? e[E_SWU] + 1e-9 : e[E_SWU];
+    M("krw", "SWU", OWEps::scaledToUnscaledSatKrw(owd, swuProbe), t.Swu);
     M("krow", "1-SOWCR", OWEps::scaledToUnscaledSatKrn(owd, 1.0 - e[E_SOWCR]), 1.0 - t.Sowcr);
     M("krow", "SWL+SGL", OWEps::scaledToUnscaledSatKrn(owd, e[E_SWL] + e[E_SGL]), t.Swl + t.Sgl);
     M("pcow", "SWL", OWEps::scaledToUnscaledSatPc(owd, e[E_SWL]), t.Swl);
@@ -812,7 +820,8 @@ static void checkEndPointMapping(Ctx& cx, const Cell& cell, const Model& m, cons
     M("pcgo", "SGU", GOEps::scaledToUnscaledSatPc(god, 1.0 - e[E_SWL] - e[E_SGU]), 1.0 - t.Swl - t.Sgu);
     M("pcgo", "SGL", GOEps::scaledToUnscaledSatPc(god, 1.0 - e[E_SWL] - e[E_SGL]), 1.0 - t.Swl - t.Sgl);
     if (m.threepoint) {
-        M("krw", "1-SOWCR-SGL", OWEps::scaledToUnscaledSatKrw(owd, 1.0 - e[E_SOWCR] - e[E_SGL]), 1.0 - t.Sowcr - t.Sgl);
+        if (1.0 - e[E_SOWCR] - e[E_SGL] <= e[E_SWU]) M("krw", "1-SOWCR-SGL", OWEps::scaledToUnscaledSatKrw(owd, 1.0 - e[E_SOWCR] - e[E_SGL]), 1.0 - t.Sowcr - t.Sgl);
+        else { cx.rep.count("cells_with_krw_critical_saturation_beyond_SWU"); M("krw", "beyond SWU", OWEps::scaledToUnscaledSatKrw(owd, 0.5 * (e[E_SWU] + 1.0 - e[E_SOWCR] - e[E_SGL])), t.Swu); }
         M("krow", "SWCR+SGL", OWEps::scaledToUnscaledSatKrn(owd, e[E_SWCR] + e[E_SGL]), t.Swcr + t.Sgl);
         M("krog", "1-SGCR-SWL", GOEps::scaledToUnscaledSatKrw(god, 1.0 - e[E_SGCR] - e[E_SWL]), 1.0 - t.Sgcr - t.Swl);
         M("krg", "SOGCR", GOEps::scaledToUnscaledSatKrn(god, e[E_SOGCR]), t.Sogcr);
@@ -848,7 +857,7 @@ static void checkEndPointMapping(Ctx& cx, const Cell& cell, const Model& m, cons
             cx.close(std::string("eps-endpoint-value:") + CURVE[c] + (fl ? ":table-kr-at-displacing-critical-equals-maximum" : ""), w.str(), cell.eval(route, c, s), expect, tol);
         };
         V(KRW, "SWCR", e[E_SWCR], 0.0, KR_TOL);
-        V(KRW, "SWU", e[E_SWU], e[E_KRW], KR_TOL);
+        V(KRW, "SWU", swuProbe, e[E_KRW], KR_TOL);
         V(KROW, "1-SOWCR", 1.0 - e[E_SOWCR], 0.0, KR_TOL);
         V(KROW, "SWL+SGL", e[E_SWL] + e[E_SGL], e[E_KRO], KR_TOL);
         V(PCOW, "SWL", e[E_SWL], t.pcwMax * pcwScale * pu, pcTol(t.pcwMax * pcwScale * pu));
@@ -866,7 +875,8 @@ static void checkEndPointMapping(Ctx& cx, const Cell& cell, const Model& m, cons
             double krorw = m.present[E_KRORW] ? e[E_KRORW] : t.Krorw * (m.present[E_KRO] || m.present[E_KRORW] ? e[E_KRO] / t.kroMax : 1.0);
             double krgr = m.present[E_KRGR] ? e[E_KRGR] : t.Krgr * (m.present[E_KRG] ? e[E_KRG] / t.krgMax : 1.0);
             double krorg = m.present[E_KRORG] ? e[E_KRORG] : t.Krorg * (m.present[E_KRO] || m.present[E_KRORG] ? e[E_KRO] / t.kroMax : 1.0);
-            V(KRW, "1-SOWCR-SGL", 1.0 - e[E_SOWCR] - e[E_SGL], krwr, KR_TOL);
+            if (1.0 - e[E_SOWCR] - e[E_SGL] <= e[E_SWU]) V(KRW, "1-SOWCR-SGL", 1.0 - e[E_SOWCR] - e[E_SGL], krwr, KR_TOL);
+            else V(KRW, "between SWU and 1-SOWCR-SGL", 0.5 * (e[E_SWU] + 1.0 - e[E_SOWCR] - e[E_SGL]), e[E_KRW], KR_TOL);     // at the maximum from SWU on
             V(KROW, "SWCR+SGL", e[E_SWCR] + e[E_SGL], krorw, KR_TOL);
             V(KRG, "1-SWL-SOGCR", 1.0 - e[E_SWL] - e[E_SOGCR], krgr, KR_TOL);
             V(KROG, "SGCR", e[E_SGCR], krorg, KR_TOL);
